@@ -111,9 +111,18 @@ def judge_overrides(check: core.Check, cases: list[dict], label: str) -> None:
     _adjudicate(check, per_case, label)
 
 
+CHUNK = 30000      # cases observed and adjudicated at a time (bounds the memory of the thorough tier)
+
+
+def _chunks(items: list, n: int = CHUNK):
+    for k in range(0, len(items), n):
+        yield items[k:k + n]
+
+
 def judge(check: core.Check, cases: list[dict], label: str) -> None:
-    per_case = core.pmap(observe_one, list(enumerate(cases)), chunk=100)
-    _adjudicate(check, per_case, label)
+    for part in _chunks(cases):
+        per_case = core.pmap(observe_one, list(enumerate(part)), chunk=100)
+        _adjudicate(check, per_case, label)
 
 
 def _adjudicate(check: core.Check, per_case: list[list[dict]], label: str, *, module: str = "SuppressionTrace",
@@ -166,9 +175,13 @@ def _adjudicate(check: core.Check, per_case: list[list[dict]], label: str, *, mo
 
 
 def judge_ctor(check: core.Check, cases: list[dict], label: str) -> list[list[dict]]:
-    per_case = core.pmap(sr.observe_ctor, list(enumerate(cases)), chunk=100)
-    _adjudicate(check, per_case, label, module="SuppressionRoutesTrace", route="ctor")
-    return per_case
+    """Returns the observations of the first chunk (used by the trace self-test)."""
+    first: list[list[dict]] = []
+    for part in _chunks(cases):
+        per_case = core.pmap(sr.observe_ctor, list(enumerate(part)), chunk=100)
+        _adjudicate(check, per_case, label, module="SuppressionRoutesTrace", route="ctor")
+        first = first or per_case
+    return first
 
 
 def _pairs(cases: list[dict]) -> list[tuple[int, dict, list]]:
@@ -179,7 +192,11 @@ def _pairs(cases: list[dict]) -> list[tuple[int, dict, list]]:
 
 
 def judge_cli(check: core.Check, cases: list[dict], label: str, *, subprocess_route: bool = False) -> None:
-    args = _pairs(cases)
+    for part in _chunks(_pairs(cases), 4000):
+        _judge_cli_part(check, part, label, subprocess_route)
+
+
+def _judge_cli_part(check: core.Check, args: list, label: str, subprocess_route: bool) -> None:
     if subprocess_route:
         with ThreadPoolExecutor(8) as ex:
             groups = list(ex.map(sr.observe_subprocess, args))
@@ -280,9 +297,16 @@ DESIGN_ACTIONS = ["RPickShape", "RAddLine", "RChooseAll", "RChooseCode", "RChoos
 
 
 def run(check: core.Check) -> None:
+    import os
     import time
 
     quick = check.tier == "quick"
+    # smoke-testing aid: scales the replay sizes of the thorough tier (the TLC design runs are not affected)
+    scale = float(os.environ.get("VERIF_C11_THOROUGH_SCALE", "1"))
+
+    def th(n: int) -> int:
+        return max(1, int(n * scale))
+
     phases: dict[str, float] = {}
     check.cov["phase_wall_s"] = phases
     t_last = [time.time()]
@@ -358,7 +382,8 @@ def run(check: core.Check) -> None:
 
     # ---- 2. base slice, S->C: replay of the exhaustive smaller bound
     cases = core.emitted_json(results["base-emit"])
-    limit = 6000 if quick else 300000
+    results["base-emit"].stdout = ""        # the emitting runs' outputs are large; keep only the parsed cases
+    limit = 6000 if quick else th(300000)
     exhaustive = len(cases) <= limit
     if not exhaustive:
         cases = rnd.sample(cases, limit)
@@ -379,7 +404,7 @@ def run(check: core.Check) -> None:
     judge(check, cases, "tlc-exhaustive")
     mark("base-replay")
     # base, beyond: TLC simulation of longer files
-    sim_cases = core.simulate_cases("SuppressionEmit", "Suppression.sim.cfg", 800 if quick else 40000, depth=14,
+    sim_cases = core.simulate_cases("SuppressionEmit", "Suppression.sim.cfg", 800 if quick else th(40000), depth=14,
                                     seed=check.seed + 11, check=check, first_num=900 if quick else None)
     judge(check, sim_cases, "tlc-simulate")
     mark("base-simulate")
@@ -387,17 +412,19 @@ def run(check: core.Check) -> None:
     # different settings sharing one Checker
     ov = list(cases)
     rnd.shuffle(ov)
-    judge_overrides(check, ov[: 600 if quick else 40000], "per-module-override")
+    judge_overrides(check, ov[: 600 if quick else th(40000)], "per-module-override")
     mark("base-overrides")
 
     # ---- 3. routes, S->C
     flat = core.emitted_json(results["catchflat"])
     block = core.emitted_json(results["catchblock"])
     check.cov["routes_cases"] = {"catch-flat": len(flat), "catch-block": len(block)}
-    lim = 1500 if quick else 60000
+    lim = 1500 if quick else th(60000)
     flat_s = flat if len(flat) <= lim else rnd.sample(flat, lim)
     block_s = block if len(block) <= lim else rnd.sample(block, lim)
     struct = core.emitted_json(results["struct"])
+    for name in ("catchflat", "catchblock", "struct"):
+        results[name].stdout = ""
     check.cov["routes_cases"]["structure-exhaustive"] = len(struct)
     check.cov["routes_replayed_exhaustively"] = {"catch-flat": len(flat) <= lim, "catch-block": len(block) <= lim,
                                                  "structure": len(struct) <= lim}
@@ -407,7 +434,7 @@ def run(check: core.Check) -> None:
     selftest_trace(check, per_block)
     mark("routes-constructor-replay")
     # structure x command line x configuration file, through main()
-    want = 250 if quick else 4000
+    want = 250 if quick else th(4000)
     sims = []
     for cfg, seed in (("SuppressionRoutes.sim.cfg", 17), ("SuppressionRoutes.simblock.cfg", 29)):
         sims += _simulate_routes(check, cfg, want, check.seed + seed)
@@ -420,7 +447,7 @@ def run(check: core.Check) -> None:
     mixed = [{"lines": f["lines"], "cfg": s["cfg"]} for f, s in zip(rnd.sample(flat, min(len(flat), len(half))), half)]
     judge_cli(check, mixed, "routes-catch-flat/main()")
     mark("routes-main-replay")
-    judge_cli(check, rnd.sample(sims, 10 if quick else 60), "routes-structure/python -m pyanalyze", subprocess_route=True)
+    judge_cli(check, rnd.sample(sims, min(len(sims), 10 if quick else 60)), "routes-structure/python -m pyanalyze", subprocess_route=True)
     mark("routes-subprocess-replay")
 
 
